@@ -185,4 +185,33 @@ PROPS = {
         "level_text": "Every operation of every explored history (~5e6 ops quick / ~1e8 thorough on the plain build, plus reduced volumes under checkptr, ASan and the race detector) agreed with the sequential model; no sanitizer report, incl. continued use after Resize without Clear. Held on the executions observed.",
         "level_note": "trusted: the 150-line sequential model; sanitizers only see executed paths; contents after a resize without clear are not judged (as the property says)",
     },
+    "C06": {
+        "pkg": "./c06",
+        "stages": [
+            {"name": "main", "timeout_q": 1800, "timeout_t": 10800},
+            {"name": "spsa", "tags": "verif,spsa", "timeout_q": 1800, "timeout_t": 10800, "tiers": ["thorough"]},
+            {"name": "race", "flags": ["-race"], "timeout_q": 1800, "timeout_t": 10800, "tiers": ["thorough"]},
+        ],
+        "rule": "cases = real search.Search.Go calls: roots of 11 classes (played-out with history, fresh, in check, <=2 replies, promotion available, clock 96..104, 2nd and 3rd occurrence built by MakeMove, mate, stalemate, dense) x requests "
+                "(depth 1..10, soft nodes, hard nodes, pre-closed stop channel, stop channel closed from another goroutine after 0..2000 us) x table sizes 32 B..16 MiB (tiny tables without Output), several requests per engine so tables are warm, "
+                "plus the ABORT SWEEP: WithNodes(k) for EVERY k in [0,K] (K=400 quick, 5000 thorough) on roots of every class - each k is one possible arrival time of stop / hard timeout; plus the UCI path: `position ...; go <args>` with depth up to 1e6 and unparsable/negative/huge numbers. "
+                "Oracle per search: returned move is null or in the reference legal moves; null only if the root is final; a completed search on a final root returns null with score 0 / mated; deep board snapshot equal before and after Go; node budget not exceeded; the same engine then answers a fresh position legally; "
+                "the board consistency hook runs at every make/undo inside the search. thorough adds a verif,spsa build with random in-range parameter values and a -race build. distinct_nontrivial = distinct (root, table size) pairs.",
+        "assumptions": [REF, "time-based limits are replaced by node budgets (the search polls them at the same points); wall-clock only chooses the moment of an async stop, never a verdict"],
+        "technique": "runtime monitor: reference legality oracle + deep board snapshot before/after + in-situ consistency hook over real searches with a dense abort-point sweep (node budget as logical stop time), race detector in thorough",
+        "level_text": "Every explored search (~6e4 quick / ~5e6 thorough incl. every abort point k<=K on ~100/900 roots) returned a legal move or the null move on a final root, left the board identical, respected its node budget and left the engine usable; ~1e8 in-situ board consistency checks passed inside the searches. Held on the executions observed.",
+        "level_note": "trusted: harness/ref legality and repetition counting; abort points are swept densely on sampled roots, not on all",
+    },
+    "C07": {
+        "pkg": "./c07",
+        "stages": [{"name": "main", "timeout_q": 1800, "timeout_t": 10800}],
+        "rule": "cases = traces of real searches (lines written to Output + return values): the C06 campaign (11 root classes x depth / soft / hard node limits / stop signals / table sizes, several searches per engine, and the abort sweep WithNodes(k) for every k<=K), "
+                "whole games played on ONE engine without Clear (tables warmed by the preceding searches) on 32000-byte (1000 buckets, heavy collisions), 1 MiB and 8 MiB tables, and the real UCI driver with Ponder=true (`info` and `bestmove M ponder P` lines). "
+                "Offline trace checker: every line parses under the info grammar; every pv is a sequence of successively legal moves from the root under the reference model; the returned move is the first move of the most recent NON-EMPTY pv (if none: null or a legal fallback move); "
+                "a non-null ponder move is legal after the returned move; depths strictly increase and node counts never decrease within a search (the abort line included). distinct_nontrivial = distinct (root, table size) pairs + distinct games.",
+        "assumptions": [REF],
+        "technique": "runtime monitor: offline checker of recorded search traces (info-line grammar, PV legality under the reference model, move/PV/ponder agreement, monotone depth and node counters)",
+        "level_text": "Every explored search trace (~5e4 quick / ~4e6 thorough, incl. aborted searches at every abort point and games on warm and heavily colliding tables) satisfied the trace specification: ~1e5+ PVs legal move by move, returned move = head of the last non-empty PV, ponder legal. Held on the executions observed.",
+        "level_note": "trusted: harness/ref for legality; info grammar as printed by search.go",
+    },
 }
